@@ -454,9 +454,9 @@ char *strcpy(char *d, const char *s)
     __CPROVER_assert(s != NULL && d != NULL, "strcpy: arguments not NULL");
     size_t n = strlen(s);
     __CPROVER_assert(__CPROVER_w_ok(d, n + 1), "strcpy: destination holds strlen(src)+1 bytes");
-    __CPROVER_havoc_slice(d, n + 1);
+    /* over-approximation: the whole destination object becomes arbitrary, then the terminator */
+    __CPROVER_havoc_object(d);
     d[n] = 0;
-    if (vg_k < n) d[vg_k] = s[vg_k];
     return d;
 }
 char *strcat(char *d, const char *s)
@@ -465,7 +465,7 @@ char *strcat(char *d, const char *s)
     size_t dl = strlen(d);
     size_t n = strlen(s);
     __CPROVER_assert(__CPROVER_w_ok(d + dl, n + 1), "strcat: destination holds strlen(dest)+strlen(src)+1 bytes");
-    __CPROVER_havoc_slice(d + dl, n + 1);
+    __CPROVER_havoc_object(d);
     d[dl + n] = 0;
     return d;
 }
@@ -491,7 +491,7 @@ int v_snprintf(char *d, size_t size, int unused)
     int r = nondet_int();
     __CPROVER_assume(r >= 0);
     if (size) {
-        __CPROVER_havoc_slice(d, size);
+        __CPROVER_havoc_object(d);       /* over-approximation: whole destination object arbitrary */
         d[(size_t) r < size ? (size_t) r : size - 1] = 0;
     }
     return r;
